@@ -42,7 +42,7 @@ pub fn check_caches<const K: usize>(t: &AffTree<K>, after: &str) -> Result<Cache
             NodeState::Infeasible => {
                 cs.infeasible_marks += 1;
                 let rows = pwl::path_rows(t, idx).map_err(|e| Failure::new(format!("after {after}: {e}")))?;
-                if lp::has_ball(&closed(&rows), n, &delta()) {
+                if lp::has_ball_boxed(&closed(&rows), n, &delta()) {
                     return Err(Failure::with(
                         format!("after {after}: node {idx} is marked Infeasible but its path region contains a ball of radius 1e-6"),
                         json!({"node": idx}),
@@ -106,7 +106,7 @@ pub fn vanish_check(before: &AffTree<2>, after: &AffTree<2>, what: &str) -> Resu
         if !has_children {
             vanished_terms += 1;
             let rows = closed(&pwl::path_rows(before, idx).map_err(Failure::new)?);
-            if lp::has_ball(&rows, n, &delta()) {
+            if lp::has_ball_boxed(&rows, n, &delta()) {
                 let p = lp::interior_point(&rows, n);
                 return Err(Failure::with(
                     format!("{what} removed terminal {idx} although its region contains a ball of radius 1e-6"),
@@ -135,7 +135,7 @@ pub fn vanish_check(before: &AffTree<2>, after: &AffTree<2>, what: &str) -> Resu
                 for (label, c, any) in &survivors {
                     if !*any {
                         let rows = closed(&pwl::path_rows(before, *c).map_err(Failure::new)?);
-                        if lp::has_ball(&rows, n, &delta()) {
+                        if lp::has_ball_boxed(&rows, n, &delta()) {
                             return Err(Failure::with(
                                 format!("{what} skipped decision {idx} although its branch {label} (node {c}) has a region containing a ball of radius 1e-6"),
                                 json!({"decision": idx, "branch": label}),
@@ -155,7 +155,7 @@ pub fn vanish_check(before: &AffTree<2>, after: &AffTree<2>, what: &str) -> Resu
                         for (i, r) in pred.iter().enumerate() {
                             side.push(if l & (1 << i) != 0 { r.clone() } else { Row::le(r.a.iter().map(|x| -x).collect(), -&r.b) });
                         }
-                        if lp::has_ball(&side, n, &delta()) {
+                        if lp::has_ball_boxed(&side, n, &delta()) {
                             return Err(Failure::new(format!(
                                 "{what} skipped decision {idx} whose branch {l} is missing (undefined inputs) and reachable: those inputs become defined"
                             )));
